@@ -143,6 +143,45 @@ int main()
         a = 5;
         CHECK(mid.get() == 6 && top.get() == 12, "... and keeps following its inputs");
     }
+    // ---- an evaluator l-value that has a history: registrations were removed before (the first, a middle one), then every construction
+    //      entry point is used with it - it only GAINS the new registration, every registration it still had stays and is evaluated ----
+    {
+        for (int removed = 0; removed < 3; ++removed) {
+            for (int entry = 0; entry < 4; ++entry) {
+                BindingEvaluator ev;
+                Property<int> in{ 1 };
+                auto plus = [](int x) { return x + 100; };
+                Property<int> p[3] = { makeBoundProperty(ev, plus, in), makeBoundProperty(ev, in * 2), makeBoundProperty(ev, in - 7) };
+                p[removed].reset();
+                BindingEvaluator copy = ev;
+                Property<int> fresh;
+                std::unique_ptr<PropertyUpdater<int>> held;
+                switch (entry) {
+                case 0:
+                    fresh = makeBoundProperty(ev, plus, in);
+                    break;
+                case 1:
+                    fresh = makeBinding(ev, in + 1000);
+                    break;
+                case 2:
+                    held = makeBinding(ev, plus, in);
+                    fresh = std::move(held);
+                    break;
+                default:
+                    fresh = makeBoundProperty(copy, in + 1000);
+                }
+                in = 50;
+                ev.evaluateAll();
+                const int want[3] = { 150, 100, 43 };
+                bool ok = true;
+                for (int i = 0; i < 3; ++i)
+                    if (i != removed && p[i].get() != want[i])
+                        ok = false;
+                CHECK(ok, ("evaluator with an earlier removal: existing registrations survive entry point " + std::to_string(entry) + ", removed " + std::to_string(removed)).c_str());
+                CHECK(fresh.get() == (entry == 0 || entry == 2 ? 150 : 1050), "evaluator with an earlier removal: the new registration is evaluated");
+            }
+        }
+    }
     std::printf("cells %ld failures %ld\n", g_cells, g_fail);
     return g_fail ? 1 : 0;
 }
